@@ -97,7 +97,7 @@ func Run(args []string) {
 			}
 		}
 	}
-	rep := vh.NewReport(command, "(A) random type graphs over 1..3 user types: object / array / alias / or-shortcut / literal bodies, required, optional and nullable references, array items, {type} and {or} rules, key shortcuts (string types with regex / length / enum rules; rarely aliased), enum rules via AddRule, allOf, additionalProperties, rarely or-rules on empty containers; the option jschema.KeysAreOptionalByDefault() drawn per schema OBJECT (root and every added type independently; properties unmarked / optional: true / optional: false), also in (C) where a shared object keeps its own setting under every root; root + every type as its own root; only schemas accepted by Check are examined. (B) plain-JSON schemas (depth <= 4, all literal forms, keys with every escape spelling: control characters, DEL, \\u0041, \\/, surrogate pairs; the same spellings occur in property names of (A)) with random layout, rules and notes. (C) histories: 2-4 root schemas sharing type OBJECTS (a chain of 1-3 shared types: objects with required / optional / nullable references, key shortcuts, optional recursion; arrays; aliases; or-shortcuts; scalars ruled by a scalar type; scalars with rules) whose type tables bind the names the shared types mention to different definitions (any kind / shape; integer and string scalar types with different rules, the string one being the key type), equal definitions pooled into one object; all roots built first or one by one; random Check / Example / Validate calls on random roots, finally Example on every root in random order: every Example() of a root Check accepts must be well-formed, accepted by that root's Validate, and (as every other call) give what the same root gives when assembled from completely fresh objects. nontrivial = (A) the example builder enters at least one user type, (B) the schema has at least one container, (C) some shared object is entered by the builder for two accepted roots under which its example differs")
+	rep := vh.NewReport(command, "(A) random type graphs over 1..3 user types (every third graph is of family A2: a string type with the full rule set is added where there is none and every object of the root and the type bodies gets a key shortcut with probability 1/2, required or optional, at a random position): object / array / alias / or-shortcut / literal bodies, required, optional and nullable references, array items, {type} and {or} rules, key shortcuts (string types with regex / length / enum rules, every second one redrawn from everything a string type can carry: no rule / regex / minLength / maxLength / enum inline or by name / a format type email, uri, uuid, date, datetime; the explicit type rule string or enum; const and nullable true or false; rules in random order; rarely aliased), enum rules via AddRule, allOf, additionalProperties, rarely or-rules on empty containers; the option jschema.KeysAreOptionalByDefault() drawn per schema OBJECT (root and every added type independently; properties unmarked / optional: true / optional: false), also in (C) where a shared object keeps its own setting under every root; root + every type as its own root; only schemas accepted by Check are examined. (B) plain-JSON schemas (depth <= 4, all literal forms, keys with every escape spelling: control characters, DEL, \\u0041, \\/, surrogate pairs; the same spellings occur in property names of (A)) with random layout, rules and notes. (C) histories: 2-4 root schemas sharing type OBJECTS (a chain of 1-3 shared types: objects with required / optional / nullable references, key shortcuts, optional recursion; arrays; aliases; or-shortcuts; scalars ruled by a scalar type; scalars with rules) whose type tables bind the names the shared types mention to different definitions (any kind / shape; integer and string scalar types with different rules, the string one being the key type: per history a family of plain words or of one format email / uri / uuid / date / datetime, its bindings over no rule / regex / length / enum / explicit type rules incl. the format / const / nullable), equal definitions pooled into one object; all roots built first or one by one; random Check / Example / Validate calls on random roots, finally Example on every root in random order: every Example() of a root Check accepts must be well-formed, accepted by that root's Validate, and (as every other call) give what the same root gives when assembled from completely fresh objects. nontrivial = (A) the example builder enters at least one user type, (B) the schema has at least one container, (C) some shared object is entered by the builder for two accepted roots under which its example differs")
 	seed := vh.Seed()
 	workers := runtime.NumCPU()
 	if workers > 16 {
@@ -117,10 +117,14 @@ func Run(args []string) {
 	}
 	go func() {
 		defer close(reqs)
-		nA := vh.Pick(10000, 600000)
-		for i := 0; i < nA; i++ {
+		nA, nA2 := vh.Pick(10000, 600000), vh.Pick(5000, 150000)
+		for i := 0; i < nA+nA2; i++ {
 			r := rand.New(rand.NewSource(seed*1000003 + 1515 + int64(i)*7919))
 			g := c09.RandomGraph(r, 3, c09.Options{Enums: true, OrContainer: true, StringRules: true, ManyKeys: true, ExoticKeys: true})
+			widenStringTypes(r, g) // keytypes.go: the string types (key types of the shortcuts) with the full rule set
+			if i >= nA {
+				addKeyShortcuts(r, g) // family (A2): key shortcuts in most objects, a string type with the full rule set
+			}
 			k := &kase{g: g, roots: []*tg.Node{g.Root}, names: []string{"root"}}
 			req := &tg.Req{Example: true, Rules: c09.EnumRules}
 			req.Schemas = append(req.Schemas, tg.SchemaReq{Name: "root", Text: g.Root.Text(), Opt: g.RootOpt})
